@@ -166,6 +166,7 @@ struct TcpEngine : Engine {
         World w; w.net_rng = root.fork("net"); net_swarm(cfg, w.net, p.cfg);
         p.cfg.set("style", chaos ? "chaos" : "endpoint").set("cleanup", cfg.chance(0.5) ? 1 : 0).set("init", c.handshake ? "syn" : "ctor")
              .set("follower", c.handshake && cfg.chance(0.6) ? 1 : 0).set("legacy", c.handshake && !c.addr[0].is6() && cfg.chance(0.6) ? 1 : 0);
+        { Rng lc = root.fork("legcopy"); p.cfg.set("legcopy", lc.chance(0.35) ? (int64_t)lc.small(0, 120) : -1).set("legcopykind", (int64_t)lc.below(2)); }
         if (!chaos) {
             ConnSim sim(w, c, root.fork("conn").next()); sim.start(); w.q.run(INT64_MAX, 400000);
             p.cfg.set("simus", w.q.now);
@@ -307,7 +308,10 @@ struct TcpEngine : Engine {
             follower.stream_keep_alive(std::chrono::hours(10000));
         }
         // (C) legacy follower
-        struct LegState { Bytes got[2]; bool ended; } leg; leg.ended = false;
+        struct LegState { Bytes got[2]; bool ended; Tins::TCPStream* live; } leg; leg.ended = false; leg.live = 0;
+        // a copy of the legacy stream object taken in mid-history (copy construction, or assignment over an older copy) is fed the same
+        // frames from then on and must deliver the same prefix: copies are deep and carry the out-of-order segments held at that moment
+        std::unique_ptr<Tins::TCPStream> leg_copy; bool leg_copied = false; const int64_t legcopy_at = p.cfg.num("legcopy", -1), legcopy_kind = p.cfg.num("legcopykind", 0);
         Tins::TCPStreamFollower legacy;
         bool fol_dead = false; bool leg_gate = false; int fin_seen[2] = { 0, 0 }; bool rst_seen = false; bool leg_syn = false;
         bool any_progress = false, any_fault = false;
@@ -373,9 +377,22 @@ struct TcpEngine : Engine {
                 bool ends = leg_gate && was_gate && (d.tcp.flags & (TH_FIN | TH_RST));
                 size_t kk[2] = { ref[0].k, ref[1].k };
                 legacy.follow_streams(one.begin(), one.end(),
-                    [&leg](Tins::TCPStream& s) { leg.got[0] = s.client_payload(); leg.got[1] = s.server_payload(); return true; },
-                    [&leg](Tins::TCPStream& s) { leg.got[0] = s.client_payload(); leg.got[1] = s.server_payload(); leg.ended = true; });
+                    [&leg](Tins::TCPStream& s) { leg.got[0] = s.client_payload(); leg.got[1] = s.server_payload(); leg.live = &s; return true; },
+                    [&leg](Tins::TCPStream& s) { leg.got[0] = s.client_payload(); leg.got[1] = s.server_payload(); leg.ended = true; leg.live = 0; });
                 st.inc("chk.legacy");
+                if (leg_copied && leg_copy) {
+                    std::unique_ptr<Tins::PDU> again(parse(frame)); Tins::IP* ip = again->find_pdu<Tins::IP>(); Tins::TCP* tcp = again->find_pdu<Tins::TCP>();
+                    if (ip && tcp) {
+                        leg_copy->update(ip, tcp); st.inc("chk.legacy_copy");
+                        const Bytes* cp[2] = { &leg_copy->client_payload(), &leg_copy->server_payload() };
+                        for (int x = 0; x < 2; ++x) if (!bytes_eq(*cp[x], c.data[x], kk[x])) return Verdict::bad("legacy:copy-diverges", fmt("dir %d: a copy of the stream taken at an earlier frame and fed the same frames since holds %zu bytes, reference prefix is %zu", x, cp[x]->size(), kk[x]), idx);
+                    }
+                }
+                if (legcopy_at >= 0 && !leg_copied && leg.live && !leg.ended) {
+                    if (legcopy_kind == 0) { if (idx >= legcopy_at) { leg_copy.reset(new Tins::TCPStream(*leg.live)); leg_copied = true; st.inc("probe.legacy_copy_constructed"); } }
+                    else if (!leg_copy) { leg_copy.reset(new Tins::TCPStream(*leg.live)); }      // older snapshot, overwritten later by assignment
+                    else if (idx >= legcopy_at) { *leg_copy = *leg.live; leg_copied = true; st.inc("probe.legacy_copy_assigned"); }
+                }
                 for (int x = 0; x < 2; ++x) if (!bytes_eq(leg.got[x], c.data[x], kk[x])) {
                     // the data callback only fires when bytes were added, so got[] may lag only if nothing was added: it must equal the prefix exactly
                     return Verdict::bad("legacy:delivery", fmt("dir %d: legacy follower delivered %zu bytes, reference prefix is %zu", x, leg.got[x].size(), kk[x]), idx);
